@@ -52,6 +52,45 @@ theorem valsetEndBlock_sweeps_at_model_heights (h : Int) (b s : Bool) :
     by_cases h1 : (Int.tmod h 50 == 0 || h == 1) = true <;> by_cases h2 : (h % 10 == 0) = true <;> simp [h1, h2, hp, e']
   · by_cases h1 : (Int.tmod h 50 == 0 || h == 1) = true <;> simp [h1, hp]
 
+theorem translated_skyway_EndBlocker : translated "x/skyway.EndBlocker" = true := by decide
+theorem translated_evm_EndBlock : translated "x/evm.AppModule.EndBlock" = true := by decide
+/-- what the bridge's end blocker does for one active chain at height `h` -/
+def skywayChainPhases (h : Int) (v : Nat) : List String :=
+  [s!"tally {v}", s!"prune attestations {v}"] ++ if Int.tmod h 50 == 0 then [s!"validator nonces {v}"] else []
+
+theorem foldl_appends {α : Type} (g : List String → α → List String) (k : α → List String)
+    (hg : ∀ acc v, g acc v = acc ++ k v) (l : List α) (acc : List String) :
+    l.foldl g acc = acc ++ l.flatMap k := by
+  induction l generalizing acc with
+  | nil => simp
+  | cons v vs ih => rw [List.foldl_cons, hg, ih]; simp [List.flatMap_cons, List.append_assoc]
+
+/-- C09 / C02: the bridge's end blocker runs every phase whatever the earlier ones returned: the batch builds, then per active
+    chain the tally, the pruning of attestations and (every 50th height) the validator-nonce catch-up, then the gas estimates and
+    the time-out sweep — in this order -/
+theorem skywayEndBlocker_phases (h : Int) (chains : List Nat) (f : Bool) :
+    skywayEndBlocker h chains f
+      = .returned (["batches"] ++ chains.flatMap (skywayChainPhases h) ++ ["gas estimates", "timed-out batches"]) := by
+  unfold skywayEndBlocker
+  simp only [Id.run]
+  rw [foldl_appends _ (skywayChainPhases h)]
+  · cases f <;> simp [List.append_assoc]
+  · intro acc v
+    unfold skywayChainPhases
+    cases f <;> by_cases hh : (Int.tmod h 50 == 0) = true <;> simp [hh]
+
+/-- C09: the evm end blocker always comes back, and every phase runs whatever the earlier ones returned -/
+theorem evmEndBlock_phases (h : Int) (f : Bool) :
+    evmEndBlock h f = .returned (["compass deployments", "just-in-time valset updates"]
+      ++ (if Int.tmod h 300 == 0 then ["external balances"] else [])
+      ++ (if Int.tmod h 10000 == 0 then ["reference blocks", "stale user contracts"] else [])) := by
+  simp only [evmEndBlock, Id.run]
+  cases f <;> by_cases h1 : (Int.tmod h 300 == 0) = true <;> by_cases h2 : (Int.tmod h 10000 == 0) = true <;> simp [h1, h2]
+
+example : skywayEndBlocker 100 [1, 2] true = .returned ["batches", "tally 1", "prune attestations 1", "validator nonces 1", "tally 2",
+    "prune attestations 2", "validator nonces 2", "gas estimates", "timed-out batches"] := by decide
+example : evmEndBlock 300 true = .returned ["compass deployments", "just-in-time valset updates", "external balances"] := by decide
+
 /-- non-vacuity -/
 example : consensusEndBlock 100 true true true = .returned ["estimates", "attestations", "prune older than 300"] := by decide
 example : consensusEndBlock 101 true false false = .returned ["estimates", "attestations"] := by decide
